@@ -27,6 +27,22 @@ Spaces (DESIGN.md section 4, C14) - every one is a finite domain that is enumera
                 distinct, the *set* equal to the set produced by an independent corner-removal generator, count ==
                 get_hook_length == hook formula == lattice path count; N <= 7: == brute-force filtering of all N!
                 fillings.  finalize: sum_lambda f(lambda)^2 == N! for every N (RSK identity) on the observed counts.
+Option / argument-form axes (audit wave; every value of every axis is executed for every point of the space it belongs to):
+  A  irrep_opt : reduce_group_representation(zero_eps in {default, 1e-10, 1e-3}) x representation dtype {int64, float64,
+                complex128} for every table (and relabelled table) of order <= 24, same oracle and tolerance as the default call
+                plus equal block dimensions
+     argform   : every parameterised constructor with numpy-integer n / keyword n; S_n, A_n also with int / numpy-bool /
+                positional `alternating`, the first form on a cold lru_cache and the plain call after it; == plain call
+     layout    : cayley_table_to_left_regular_form on int32 / Fortran-ordered / strided / negatively strided tables of every
+                order == the contiguous int64 call (and the engine's GUARD_LAYOUT oracle for that function)
+  B  argform   : get_sym_group_num_irrep with numpy-integer N (cold cache), plain after it, int / numpy-bool / positional
+                return_full, for every N of pcount and pfull
+  D  argform   : get_hook_length with numpy int64 / int32 parts (cold cache), plain after it, int / numpy-bool check flag
+     roundtrip : transpose(transpose(lam)) == lam, mask(transpose(lam)) == mask(lam)^T, mask sums == (lam, lam^T),
+                hook_length(lam^T) == hook_length(lam) through the library's own ndarray outputs, check on and off
+  reject      : every composition of N <= 5 that is not a partition (zero part or an increasing step), tuple and int64-array
+                form: get_hook_length / get_all_young_tableaux / get_young_diagram_mask / get_young_diagram_transpose with
+                check=True (default and explicit) must raise; repeated after the check=False call of the same composition
 """
 import itertools
 import math
@@ -37,13 +53,22 @@ from mc import core
 
 PROPERTY = 'C14'
 GUARD = ['numqi.group._internal', 'numqi.group._symmetric']  # argument-immutability oracle (mc.seams.ImmutabilityGuard)
+# memory-layout oracle only for the exact integer function: the blocks returned by reduce_group_representation are defined up to
+# a change of basis inside degenerate eigenspaces (rounding decides), so bitwise/1e-6 agreement between layouts is not demanded
+GUARD_LAYOUT = ['numqi.group._internal.cayley_table_to_left_regular_form']
 LEVEL = 'model_checking'
 RULE = ('finite domains enumerated completely: state = one point of the enumerated space (a group element, an ordered pair, an '
         'ordered triple of a Cayley table; an integer N; a partition; a standard tableau); transition = one call of a numqi '
         'function whose result is compared with the reference (table constructor, left-regular form, irrep reduction, '
         'partition count, diagram list, mask/transpose/hook length, tableau enumeration); trace = one object (table, N, shape) '
         'on which every stage of the pipeline was compared; non-trivial = group of order > 1 / reduction with a block of '
-        'dimension > 1 / N beyond the hard-coded N<=3 branches / shape with more than one standard tableau')
+        'dimension > 1 / N beyond the hard-coded N<=3 branches / shape with more than one standard tableau.  Option and '
+        'argument-form axes enumerated completely on top of these spaces: zero_eps {default,1e-10,1e-3} x dtype {int64,float64,'
+        'complex128} of reduce_group_representation (order <= 24); numpy-integer / keyword / positional / int-flag / numpy-bool forms '
+        'of the constructor, get_sym_group_num_irrep and get_hook_length parameters, first on a cold lru_cache, then the plain call '
+        'again; int32 / Fortran / strided / negatively strided tables into cayley_table_to_left_regular_form; transpose / mask / '
+        'hook-length round trips through the library\'s own ndarray outputs; every non-partition composition of N <= 5 must be '
+        'rejected by all four diagram functions with check=True (also after the check=False call)')
 ASSUMPTIONS = [
     'integer look-ups in numpy arrays, python integers and itertools.permutations are the trusted base',
     'reference groups are built from the textbook definitions (permutation composition + inversion parity, (r,s) pairs with '
@@ -52,6 +77,15 @@ ASSUMPTIONS = [
     'count as the reference group (isomorphism invariants; they separate all groups in the catalogue from each other)',
     'the labelling of elements and the identity position are not part of the property',
     'tolerance for the floating-point irreps: see TOL_REP below',
+    'zero_eps and the dtype / memory layout / integer width of an exactly representable argument are not part of the mathematical '
+    'input: results are compared with the same oracle (irreps: same tolerance, which derives from the fixed 1e-4 cluster threshold, '
+    'not from zero_eps) or for equality with the plain call (integer results)',
+    'numpy integers / numpy bools / python ints used as flags are admissible forms of the documented int / bool parameters; the '
+    'tuple form get_hook_length((3,2,1)) is not (varargs signature)',
+    'an AssertionError from the shared validator check_young_diagram is the rejection of an inadmissible diagram; what the '
+    'functions do with check=False on such input is outside the property and is not compared',
+    'the memory-layout engine oracle is enabled for cayley_table_to_left_regular_form only: irreducible blocks are defined up to a '
+    'change of basis, so layout-induced rounding may legitimately rotate them',
 ]
 CHUNK = 1
 
@@ -69,6 +103,12 @@ def tol_rep(N):
     observed on the pinned tree: < 5e-15).  A wrong block is off by O(1).
     """
     return 1e3 * EPS * 2 * N / 1e-4
+
+
+# option axis of reduce_group_representation: (zero_eps, dtype of the representation); (None, int64) is the default call
+REP_OPT_ORDER = 24
+REP_OPT_VARIANTS = [(ze, dt) for ze in (None, 1e-10, 1e-3) for dt in ('int64', 'float64', 'complex128') if (ze, dt) != (None, 'int64')]
+PENDING = set()   # additions whose oracle fires on the unchanged tree (reported, waiting for the repair of numqi)
 
 
 # ------------------------------------------------------------------ reference: partitions, hooks, tableaux
@@ -337,6 +377,9 @@ CONSTRUCTOR = {
 }
 
 
+CONSTRUCTOR_FN = ('symmetric', 'alternating', 'dihedral', 'cyclic', 'multiplicative')   # families with a parameter n
+
+
 def construct(numqi, family, n):
     g = numqi.group
     if family == 'symmetric':
@@ -426,6 +469,9 @@ def build_cases(tier, seed):
         cases.append({'kind': 'table', 'family': 'alternating', 'n': 6, 'relabel': 0, 'pipeline': 'axioms'})
         cases.append({'kind': 'table', 'family': 'symmetric', 'n': 6, 'relabel': 0, 'pipeline': 'axioms'})
         info['axioms_only_beyond_order_120'] = ['A_6 (360)', 'S_6 (720)']
+    info['option_axes'] = {'reduce_group_representation(zero_eps, dtype), order <= %d' % REP_OPT_ORDER: [list(v) for v in REP_OPT_VARIANTS],
+                           'table argument forms': 5, 'left-regular table layouts': 5, 'num_irrep argument forms': [6, 4], 'hook_length argument forms': 5,
+                           'invalid diagrams (compositions of N<=5 that are not partitions)': 268, 'pending': sorted(PENDING)}
     info['exhaustive'] = True
     info['note'] = ('every listed finite domain is enumerated completely: all element pairs and triples of every table, all N, all '
                     'partitions, all tableaux; the relabelled tables are generic atoms (seed dependent), everything else is seed independent')
@@ -459,102 +505,13 @@ def _brief(a):
     return getattr(a, '__name__', type(a).__name__)
 
 
-def run_table(case, out, env, numqi):
-    fam, n, k_rel = case['family'], case['n'], case['relabel']
-    g = numqi.group
-    name = label(fam, n)
-    site = 'table/%s' % CONSTRUCTOR[fam]
-    ok, T = _call(out, site, 'constructing the Cayley table of %s' % name, construct, numqi, fam, n)
-    if not ok:
-        return
-    Nref = ref_order(fam, n)
-    if not (isinstance(T, np.ndarray) and T.ndim == 2 and T.shape[0] == T.shape[1] and T.dtype.kind in 'iu'):
-        out.violation(site + '/not_a_table', 'Cayley table of %s is not a square integer array' % name, family=fam, n=n, got=repr(T)[:300])
-        return
-    if T.shape[0] != Nref:
-        out.violation(site + '/wrong_order', 'Cayley table of %s has order %d, the group has order %d' % (name, T.shape[0], Nref), family=fam, n=n, table=T if T.size < 700 else T.shape)
-        return
-    ok, T2 = _call(out, site, 'constructing the Cayley table of %s a second time' % name, construct, numqi, fam, n)
-    if ok and not np.array_equal(T, T2):
-        out.violation(site + '/not_reproducible', 'two constructions of %s differ' % name, family=fam, n=n)
-    if ok and T2 is T:
-        out.count('constructor_returns_shared_cached_array')  # observation only: a caller writing into it corrupts later calls
-    T = np.array(T, dtype=np.int64)  # private copy: the S_n/A_n tables are shared lru_cache objects
-    N = Nref
-    if k_rel:
-        # generic atom: relabel the elements, T'[pi a, pi b] = pi T[a,b]
-        pi = env.rng('relabel', fam, n, k_rel).permutation(N)
-        Tp = np.empty_like(T)
-        Tp[pi[:, None], pi[None, :]] = pi[T]
-        T = Tp
-        site = 'relabel/%s' % CONSTRUCTOR[fam]
-    detail = {'family': fam, 'n': n, 'relabel': k_rel}
-    if N <= 24:
-        detail['table'] = T
-    # ---------------- axioms: all pairs, all triples
-    bad, e, inv = table_axioms(T)
-    out.state(N + N * N + N ** 3)
-    out.count('elements', N)
-    out.count('pairs_axioms', N * N)
-    out.count('triples_associativity', N ** 3)
-    for cls, wit in bad.items():
-        out.violation('%s/%s' % (site, cls), 'Cayley table of %s: %s, witness %s' % (name, cls, wit), witness=wit, **detail)
-    out.outcome(('table', T), nontrivial=N > 1)
-    if bad:
-        return
-    got, classes = group_invariants(T, e, inv)
-    want = ref_invariants(fam, n)
-    if got != want:
-        diff = {k: (got[k], want[k]) for k in got if got[k] != want[k]}
-        out.violation('%s/not_the_named_group' % site, 'table is a group of order %d but not %s: invariants (got, reference) %s' % (N, name, str(diff)[:300]),
-                      got=got, reference=want, **detail)
-    out.outcome(('invariants', fam, got['orders'], got['classes'], got['commuting_pairs']), nontrivial=got['classes'] < N)
-    if case['pipeline'] == 'axioms':
-        out.trace()
-        out.sample = {'kind': 'table', 'group': name, 'order': N, 'pipeline': 'axioms only', 'classes': got['classes']}
-        return
-    # ---------------- left regular form
-    lsite = ('relabel' if k_rel else 'regular') + '/cayley_table_to_left_regular_form'
-    ok, L = _call(out, lsite, 'left regular form of %s' % name, g.cayley_table_to_left_regular_form, T.copy())
-    if not ok:
-        return
-    if not (isinstance(L, np.ndarray) and L.shape == (N, N, N)):
-        out.violation(lsite + '/shape', 'left regular form of %s has shape %s' % (name, getattr(L, 'shape', None)), **detail)
-        return
-    if N <= 24:
-        ok, L2 = _call(out, lsite, 'left regular form of %s from a tuple of tuples' % name, g.cayley_table_to_left_regular_form,
-                       tuple(tuple(r) for r in T.tolist()))
-        if ok and not np.array_equal(L, L2):
-            out.violation(lsite + '/tuple_input_differs', 'tuple-of-tuples input (documented) gives another result than the array', **detail)
-    out.state(N * N)
-    out.count('pairs_regular', N * N)
-    perm_ok = bool(np.isin(L, (0, 1)).all() and (L.sum(axis=1) == 1).all() and (L.sum(axis=2) == 1).all())
-    if not perm_ok:
-        out.violation(lsite + '/not_permutation_matrices', 'left regular form of %s is not a list of 0/1 permutation matrices' % name, **detail)
-        return
-    P = np.argmax(L, axis=1)  # P[g,h] = row of the 1 in column h: L[g] e_h = e_{P[g,h]}
-    if not np.array_equal(P, T):
-        a, b = np.argwhere(P != T)[0]
-        out.violation(lsite + '/wrong_action', 'L[g] e_h != e_{g h} for %s at g=%d h=%d: got e_%d, table says %d' % (name, a, b, P[a, b], T[a, b]), g=int(a), h=int(b), **detail)
-    # homomorphism on all pairs, as permutations: (L[a] L[b]) e_h = e_{P[a,P[b,h]]}
-    for a in range(N):
-        comp = P[a][P]            # [b,h] -> P[a,P[b,h]]
-        if not np.array_equal(comp, P[T[a]]):
-            b = int(np.argwhere((comp != P[T[a]]).any(axis=1))[0, 0])
-            out.violation(lsite + '/not_homomorphism', 'L[a] L[b] != L[ab] for %s at a=%d b=%d' % (name, a, b), a=a, b=b, **detail)
-            break
-    if len({P[a].tobytes() for a in range(N)}) != N:
-        out.violation(lsite + '/not_faithful', 'two elements of %s have the same left-regular matrix' % name, **detail)
-    if not np.array_equal(P[e], np.arange(N)):
-        out.violation(lsite + '/identity_not_identity', 'L[e] is not the identity matrix for %s' % name, identity=e, **detail)
-    # ---------------- irreducible blocks
-    rsite = ('relabel' if k_rel else 'irrep') + '/reduce_group_representation'
-    ok, irr = _call(out, rsite, 'reduce_group_representation(left regular form of %s)' % name, g.reduce_group_representation, L.copy())
-    if not ok:
-        return
+def check_blocks(out, rsite, irr, T, N, name, detail, nclasses):
+    """oracle for the result of reduce_group_representation on the left regular form of the verified table T: every block
+    unitary for all g, homomorphism for all pairs, characters orthonormal, sum dim^2 = N, #blocks = #classes.
+    Returns the sorted dimensions (None if the result is not a list of (N,d,d) arrays)."""
     if not (isinstance(irr, list) and all(isinstance(x, np.ndarray) and x.ndim == 3 and x.shape[0] == N and x.shape[1] == x.shape[2] for x in irr)):
         out.violation(rsite + '/shape', 'blocks of %s are not a list of (N,d,d) arrays: %s' % (name, [getattr(x, 'shape', None) for x in irr][:10]), **detail)
-        return
+        return None
     tol = tol_rep(N)
     dims = sorted(int(x.shape[1]) for x in irr)
     chars = []
@@ -600,9 +557,161 @@ def run_table(case, out, env, numqi):
     s2 = sum(d * d for d in dims)
     if s2 != N:
         out.violation(rsite + '/sum_dim_squared', 'blocks of %s have dimensions %s, sum of squares %d != group order %d' % (name, dims, s2, N), dims=dims, **detail)
-    if len(irr) != got['classes']:
-        out.violation(rsite + '/number_of_irreps', '%s has %d conjugacy classes but %d irreducible blocks were returned (dims %s)' % (name, got['classes'], len(irr), dims), dims=dims, classes=got['classes'], **detail)
+    if len(irr) != nclasses:
+        out.violation(rsite + '/number_of_irreps', '%s has %d conjugacy classes but %d irreducible blocks were returned (dims %s)' % (name, nclasses, len(irr), dims), dims=dims, classes=nclasses, **detail)
+    return dims
+
+
+def run_table(case, out, env, numqi):
+    fam, n, k_rel = case['family'], case['n'], case['relabel']
+    g = numqi.group
+    name = label(fam, n)
+    site = 'table/%s' % CONSTRUCTOR[fam]
+    ok, T = _call(out, site, 'constructing the Cayley table of %s' % name, construct, numqi, fam, n)
+    if not ok:
+        return
+    Nref = ref_order(fam, n)
+    if not (isinstance(T, np.ndarray) and T.ndim == 2 and T.shape[0] == T.shape[1] and T.dtype.kind in 'iu'):
+        out.violation(site + '/not_a_table', 'Cayley table of %s is not a square integer array' % name, family=fam, n=n, got=repr(T)[:300])
+        return
+    if T.shape[0] != Nref:
+        out.violation(site + '/wrong_order', 'Cayley table of %s has order %d, the group has order %d' % (name, T.shape[0], Nref), family=fam, n=n, table=T if T.size < 700 else T.shape)
+        return
+    ok, T2 = _call(out, site, 'constructing the Cayley table of %s a second time' % name, construct, numqi, fam, n)
+    if ok and not np.array_equal(T, T2):
+        out.violation(site + '/not_reproducible', 'two constructions of %s differ' % name, family=fam, n=n)
+    if ok and T2 is T:
+        out.count('constructor_returns_shared_cached_array')  # observation only: a caller writing into it corrupts later calls
+    dt0 = T.dtype
+    T = np.array(T, dtype=np.int64)  # private copy: the S_n/A_n tables are shared lru_cache objects
+    N = Nref
+    if not k_rel and not case.get('probe') and fam in CONSTRUCTOR_FN:
+        # argument forms of the normalised parameters (they feed lru_cache keys for S_n / A_n): numpy integer n, int / numpy
+        # bool / positional `alternating`; the first form is evaluated on a cold cache, the plain call again after it
+        from mc import seams
+        alt = fam == 'alternating'
+        fn = getattr(g, CONSTRUCTOR[fam])
+        if fam in ('symmetric', 'alternating'):
+            forms = [('np_int64_n_int_flag_cold_cache', (np.int64(n),), {'alternating': int(alt)}), ('plain_after_numpy_form', (n,), {'alternating': alt}),
+                     ('positional_flag', (n, alt), {}), ('np_bool_flag', (n,), {'alternating': np.bool_(alt)}), ('np_int32_n', (np.int32(n),), {'alternating': alt})]
+            seams.clear_numqi_caches()
+        else:
+            forms = [('np_int64_n', (np.int64(n),), {}), ('keyword_n', (), {'n': n})]
+        for form, a, kw in forms:
+            asite = 'argform/%s' % CONSTRUCTOR[fam]
+            ok, Tf = _call(out, asite, 'Cayley table of %s, argument form %s' % (name, form), fn, *a, **kw)
+            out.count('table_argument_forms')
+            if ok and not (isinstance(Tf, np.ndarray) and Tf.dtype == dt0 and np.array_equal(Tf, T)):
+                out.violation(asite + '/differs_from_plain_int_call', 'Cayley table of %s: argument form %s gives another result than the plain python call' % (name, form),
+                              family=fam, n=n, form=form, got=Tf if getattr(Tf, 'size', 1e9) < 700 else getattr(Tf, 'shape', repr(Tf)[:100]))
+    if k_rel:
+        # generic atom: relabel the elements, T'[pi a, pi b] = pi T[a,b]
+        pi = env.rng('relabel', fam, n, k_rel).permutation(N)
+        Tp = np.empty_like(T)
+        Tp[pi[:, None], pi[None, :]] = pi[T]
+        T = Tp
+        site = 'relabel/%s' % CONSTRUCTOR[fam]
+    detail = {'family': fam, 'n': n, 'relabel': k_rel}
+    if N <= 24:
+        detail['table'] = T
+    # ---------------- axioms: all pairs, all triples
+    bad, e, inv = table_axioms(T)
+    out.state(N + N * N + N ** 3)
+    out.count('elements', N)
+    out.count('pairs_axioms', N * N)
+    out.count('triples_associativity', N ** 3)
+    for cls, wit in bad.items():
+        out.violation('%s/%s' % (site, cls), 'Cayley table of %s: %s, witness %s' % (name, cls, wit), witness=wit, **detail)
+    out.outcome(('table', T), nontrivial=N > 1)
+    if bad:
+        return
+    got, classes = group_invariants(T, e, inv)
+    want = ref_invariants(fam, n)
+    if got != want:
+        diff = {k: (got[k], want[k]) for k in got if got[k] != want[k]}
+        out.violation('%s/not_the_named_group' % site, 'table is a group of order %d but not %s: invariants (got, reference) %s' % (N, name, str(diff)[:300]),
+                      got=got, reference=want, **detail)
+    out.outcome(('invariants', fam, got['orders'], got['classes'], got['commuting_pairs']), nontrivial=got['classes'] < N)
+    if case['pipeline'] == 'axioms':
+        out.trace()
+        out.sample = {'kind': 'table', 'group': name, 'order': N, 'pipeline': 'axioms only', 'classes': got['classes']}
+        return
+    # ---------------- left regular form
+    lsite = ('relabel' if k_rel else 'regular') + '/cayley_table_to_left_regular_form'
+    ok, L = _call(out, lsite, 'left regular form of %s' % name, g.cayley_table_to_left_regular_form, T.copy())
+    if not ok:
+        return
+    if not (isinstance(L, np.ndarray) and L.shape == (N, N, N)):
+        out.violation(lsite + '/shape', 'left regular form of %s has shape %s' % (name, getattr(L, 'shape', None)), **detail)
+        return
+    if N <= 24:
+        ok, L2 = _call(out, lsite, 'left regular form of %s from a tuple of tuples' % name, g.cayley_table_to_left_regular_form,
+                       tuple(tuple(r) for r in T.tolist()))
+        if ok and not np.array_equal(L, L2):
+            out.violation(lsite + '/tuple_input_differs', 'tuple-of-tuples input (documented) gives another result than the array', **detail)
+    if not case.get('probe'):
+        # memory layout / integer width of the table are not part of the input: int32, Fortran order, a strided view into a
+        # larger array (every second row and column) and a reversed view of the reversed table must give the same matrices
+        big = np.full((2 * N, 2 * N), -1, dtype=np.int64)
+        big[::2, ::2] = T
+        rev = np.ascontiguousarray(T[::-1, ::-1])
+        for form, Tv in (('int32', T.astype(np.int32)), ('fortran_order', np.asfortranarray(T)), ('strided_view', big[::2, ::2]),
+                         ('negative_strides', rev[::-1, ::-1]), ('int32_fortran_strided', np.asfortranarray(big.astype(np.int32))[::2, ::2])):
+            assert np.array_equal(Tv, T) and (N == 1 or form in ('int32', 'fortran_order') or not Tv.flags['C_CONTIGUOUS'])
+            ok, Lv = _call(out, lsite, 'left regular form of %s from a table given as %s' % (name, form), g.cayley_table_to_left_regular_form, Tv)
+            out.count('regular_table_layouts')
+            if ok and not (isinstance(Lv, np.ndarray) and Lv.dtype == L.dtype and np.array_equal(Lv, L)):
+                out.violation(lsite + '/depends_on_table_layout_or_width', 'left regular form of %s: table given as %s gives another result than the contiguous int64 table' % (name, form),
+                              form=form, **detail)
+    out.state(N * N)
+    out.count('pairs_regular', N * N)
+    perm_ok = bool(np.isin(L, (0, 1)).all() and (L.sum(axis=1) == 1).all() and (L.sum(axis=2) == 1).all())
+    if not perm_ok:
+        out.violation(lsite + '/not_permutation_matrices', 'left regular form of %s is not a list of 0/1 permutation matrices' % name, **detail)
+        return
+    P = np.argmax(L, axis=1)  # P[g,h] = row of the 1 in column h: L[g] e_h = e_{P[g,h]}
+    if not np.array_equal(P, T):
+        a, b = np.argwhere(P != T)[0]
+        out.violation(lsite + '/wrong_action', 'L[g] e_h != e_{g h} for %s at g=%d h=%d: got e_%d, table says %d' % (name, a, b, P[a, b], T[a, b]), g=int(a), h=int(b), **detail)
+    # homomorphism on all pairs, as permutations: (L[a] L[b]) e_h = e_{P[a,P[b,h]]}
+    for a in range(N):
+        comp = P[a][P]            # [b,h] -> P[a,P[b,h]]
+        if not np.array_equal(comp, P[T[a]]):
+            b = int(np.argwhere((comp != P[T[a]]).any(axis=1))[0, 0])
+            out.violation(lsite + '/not_homomorphism', 'L[a] L[b] != L[ab] for %s at a=%d b=%d' % (name, a, b), a=a, b=b, **detail)
+            break
+    if len({P[a].tobytes() for a in range(N)}) != N:
+        out.violation(lsite + '/not_faithful', 'two elements of %s have the same left-regular matrix' % name, **detail)
+    if not np.array_equal(P[e], np.arange(N)):
+        out.violation(lsite + '/identity_not_identity', 'L[e] is not the identity matrix for %s' % name, identity=e, **detail)
+    # ---------------- irreducible blocks
+    rsite = ('relabel' if k_rel else 'irrep') + '/reduce_group_representation'
+    ok, irr = _call(out, rsite, 'reduce_group_representation(left regular form of %s)' % name, g.reduce_group_representation, L.copy())
+    if not ok:
+        return
+    dims = check_blocks(out, rsite, irr, T, N, name, detail, got['classes'])
+    if dims is None:
+        return
     out.outcome(('irreps', tuple(dims)), nontrivial=max(dims) > 1)
+    # ---------------- option / dtype axis of reduce_group_representation (order <= REP_OPT_ORDER): the documented zero_eps and
+    # the dtype of the (exactly unitary 0/1) representation are not part of the mathematical input, so the same oracle applies
+    # with the same tolerance (the cluster threshold 1e-4 that tol_rep is derived from does not depend on zero_eps)
+    if N <= REP_OPT_ORDER and not case.get('probe'):
+        osite = ('relabel_opt' if k_rel else 'irrep_opt') + '/reduce_group_representation'
+        for zero_eps, dt in REP_OPT_VARIANTS:
+            kw = {} if zero_eps is None else {'zero_eps': zero_eps}
+            vdetail = dict(detail, zero_eps=zero_eps, dtype=dt)
+            ok, irr_v = _call(out, osite, 'reduce_group_representation(left regular form of %s as %s, zero_eps=%s)' % (name, dt, zero_eps),
+                              g.reduce_group_representation, L.astype(dt), **kw)
+            if not ok:
+                continue
+            out.count('irrep_option_variants')
+            dims_v = check_blocks(out, osite, irr_v, T, N, name, vdetail, got['classes'])
+            if dims_v is not None and dims_v != dims:
+                out.violation(osite + '/dims_differ_from_default_call', '%s: zero_eps=%s dtype=%s gives block dimensions %s, the default call %s' % (name, zero_eps, dt, dims_v, dims),
+                              dims=dims_v, default_dims=dims, **vdetail)
+            if dims_v is not None:
+                out.outcome(('irreps_opt', zero_eps, dt, tuple(dims_v)), nontrivial=max(dims_v) > 1)
     out.trace()
     out.sample = {'kind': 'table', 'group': name, 'relabel': k_rel, 'order': N, 'classes': got['classes'], 'irrep_dims': dims, 'triples': N ** 3}
 
@@ -613,6 +722,7 @@ def strip(row):
 
 def run_case(case, out, env):
     import numqi
+    from mc import seams
     g = numqi.group
     kind = case['kind']
     if kind == 'table':
@@ -620,7 +730,7 @@ def run_case(case, out, env):
             # a relabelled table is an extra (generic) input: it is only meaningful if the pipeline is sound on the
             # table as constructed; otherwise the finding belongs to the un-relabelled case and is not repeated here
             probe = core.Out()
-            run_table(dict(case, relabel=0), probe, env, numqi)
+            run_table(dict(case, relabel=0, probe=True), probe, env, numqi)
             if probe.n_violations:
                 out.count('relabel_skipped_base_case_fails')
                 return
@@ -636,6 +746,15 @@ def run_case(case, out, env):
             if not (isinstance(r, (int, np.integer)) and int(r) == p[N]):
                 out.violation('pcount/get_sym_group_num_irrep/wrong_count', 'number of irreps of S_%d: got %r, p(%d) = %d' % (N, r, N, p[N]), N=N, got=repr(r), expected=p[N])
             out.outcome(('p', N, int(r) if isinstance(r, (int, np.integer)) else repr(r)), nontrivial=N > 3)
+            # argument forms of the normalised (lru_cache key) parameters; the first on a cold cache, the plain call again after it
+            seams.clear_numqi_caches()
+            for form, a, kw in (('np_int64_N_cold_cache', (np.int64(N),), {}), ('plain_after_numpy_form', (N,), {}), ('int_flag', (N,), {'return_full': 0}),
+                                ('positional_np_bool_flag', (N, np.bool_(False)), {}), ('np_int32_N', (np.int32(N),), {}), ('keyword_N', (), {'N': N})):
+                ok, rf = _call(out, 'argform/get_sym_group_num_irrep', 'get_sym_group_num_irrep, argument form %s, N=%d' % (form, N), g.get_sym_group_num_irrep, *a, **kw)
+                out.count('pcount_argument_forms')
+                if ok and not (isinstance(rf, (int, np.integer)) and int(rf) == p[N]):
+                    out.violation('argform/get_sym_group_num_irrep/differs_from_plain_int_call', 'number of irreps of S_%d, argument form %s: got %r, p(%d) = %d' % (N, form, rf, N, p[N]),
+                                  N=N, form=form, got=repr(rf), expected=p[N])
             out.trace()
         out.sample = {'kind': 'pcount', 'N': case['hi'], 'p(N)': p[case['hi']]}
 
@@ -664,6 +783,19 @@ def run_case(case, out, env):
                 out.violation('pcount/get_sym_group_num_irrep/full_table_entry', 'full table for N=%d: entry [n=%d,m=%d] = %s, partitions of n into parts <= m: %s' % (N, a, b + 1, sub[a, b], q[a, b + 1]),
                               N=N, n=int(a), m=int(b + 1), got=int(sub[a, b]), expected=int(q[a, b + 1]))
             out.outcome(('pfull', N, tab), nontrivial=N > 3)
+            tab0 = np.array(tab)   # private copy: the result is a shared lru_cache object
+            seams.clear_numqi_caches()
+            for form, a, kw in (('np_int64_N_int_flag_cold_cache', (np.int64(N),), {'return_full': 1}), ('plain_after_numpy_form', (N,), {'return_full': True}),
+                                ('positional_flag', (N, True), {}), ('np_bool_flag', (N,), {'return_full': np.bool_(True)})):
+                ok, rf = _call(out, 'argform/get_sym_group_num_irrep', 'get_sym_group_num_irrep, argument form %s, N=%d' % (form, N), g.get_sym_group_num_irrep, *a, **kw)
+                out.count('pfull_argument_forms')
+                if not ok:
+                    continue
+                same = isinstance(rf, tuple) and len(rf) == 2 and isinstance(rf[0], (int, np.integer)) and int(rf[0]) == int(r0) and isinstance(rf[1], np.ndarray) \
+                    and rf[1].dtype == tab0.dtype and np.array_equal(rf[1], tab0)
+                if not same:
+                    out.violation('argform/get_sym_group_num_irrep/full_differs_from_plain_call', 'return_full table of S_%d, argument form %s: result differs from the plain call' % (N, form),
+                                  N=N, form=form, got=repr(rf)[:300])
             out.trace()
         out.sample = {'kind': 'pfull', 'N': case['hi']}
 
@@ -713,6 +845,7 @@ def run_case(case, out, env):
             ok, h2 = _call(out, 'hook/get_hook_length', 'get_hook_length(%s, check=False)' % (lam,), g.get_hook_length, *lam, check=False)
             if ok and int(h2) != want:
                 out.violation('hook/get_hook_length/wrong_count_check_false', 'get_hook_length(%s, check=False) = %r != %d' % (lam, h2, want), shape=lam, got=repr(h2), expected=want)
+            m = t = None
             ok, m = _call(out, 'hook/get_young_diagram_mask', 'get_young_diagram_mask(%s)' % (lam,), g.get_young_diagram_mask, lam)
             if ok:
                 wantm = np.array([[1 if j < li else 0 for j in range(lam[0])] for li in lam], dtype=np.int64)
@@ -722,6 +855,41 @@ def run_case(case, out, env):
             if ok:
                 if tuple(int(x) for x in np.asarray(t).reshape(-1)) != ref_conjugate(lam):
                     out.violation('hook/get_young_diagram_transpose/wrong_conjugate', 'conjugate of %s: got %s, expected %s' % (lam, np.asarray(t).tolist(), ref_conjugate(lam)), shape=lam, got=t)
+            # argument forms of get_hook_length (normalised to the lru_cache key): numpy integers on a cold cache, the plain
+            # call after it, int / numpy-bool check flag
+            seams.clear_numqi_caches()
+            lam64 = tuple(np.int64(x) for x in lam)
+            for form, a, kw in (('np_int64_cold_cache', lam64, {}), ('plain_after_numpy_form', lam, {}), ('int_check_flag', lam, {'check': 1}),
+                                ('np_bool_check_false', lam, {'check': np.bool_(False)}), ('np_int32', tuple(np.int32(x) for x in lam), {'check': 0})):
+                ok, hf = _call(out, 'argform/get_hook_length', 'get_hook_length%s, argument form %s' % (lam, form), g.get_hook_length, *a, **kw)
+                out.count('hook_argument_forms')
+                if ok and not (isinstance(hf, (int, np.integer)) and int(hf) == want):
+                    out.violation('argform/get_hook_length/differs_from_plain_int_call', 'get_hook_length%s, argument form %s = %r, number of standard tableaux = %d' % (lam, form, hf, want),
+                                  shape=lam, form=form, got=repr(hf), expected=want)
+            # round trips through the library's own output (int64 ndarray input, check on and off): conjugation is an
+            # involution, mask(lam^T) = mask(lam)^T, f(lam^T) = f(lam)
+            if isinstance(t, np.ndarray) and isinstance(m, np.ndarray) and t.ndim == 1 and t.size:
+                lamT = ref_conjugate(lam)
+                for chk in (True, False):
+                    ok, tt = _call(out, 'roundtrip/get_young_diagram_transpose', 'get_young_diagram_transpose(get_young_diagram_transpose(%s), check=%s)' % (lam, chk),
+                                   g.get_young_diagram_transpose, t.copy(), check=chk)
+                    if ok and not (isinstance(tt, np.ndarray) and tt.shape == (len(lam),) and tt.dtype == t.dtype and tuple(int(x) for x in tt) == lam):
+                        out.violation('roundtrip/get_young_diagram_transpose/not_an_involution', 'conjugating %s twice (check=%s) gives %s' % (lam, chk, np.asarray(tt).tolist()), shape=lam, check=chk, got=tt)
+                    ok, mt = _call(out, 'roundtrip/get_young_diagram_mask', 'get_young_diagram_mask(get_young_diagram_transpose(%s), check=%s)' % (lam, chk),
+                                   g.get_young_diagram_mask, t.copy(), check=chk)
+                    if ok and not (isinstance(mt, np.ndarray) and mt.dtype == m.dtype and mt.shape == m.T.shape and np.array_equal(mt, m.T)):
+                        out.violation('roundtrip/get_young_diagram_mask/mask_of_conjugate_is_not_transposed_mask', 'mask of the conjugate of %s (check=%s) is not the transposed mask' % (lam, chk), shape=lam, check=chk, got=mt)
+                    ok, mc_ = _call(out, 'roundtrip/get_young_diagram_mask', 'get_young_diagram_mask(%s, check=%s) from the conjugate of the conjugate' % (lam, chk),
+                                    g.get_young_diagram_mask, np.array(lam, dtype=np.int32), check=chk)
+                    if ok and not (isinstance(mc_, np.ndarray) and mc_.dtype == m.dtype and np.array_equal(mc_, m)):
+                        out.violation('roundtrip/get_young_diagram_mask/int32_array_input_differs', 'mask of %s from an int32 array (check=%s) differs from the tuple call' % (lam, chk), shape=lam, check=chk, got=mc_)
+                # column sums / row sums of the mask give the shape back
+                if m.ndim == 2 and (tuple(int(x) for x in m.sum(axis=1)) != lam or tuple(int(x) for x in m.sum(axis=0)) != lamT):
+                    out.violation('roundtrip/get_young_diagram_mask/mask_sums_are_not_the_shape', 'row / column sums of the mask of %s are not the shape and its conjugate' % (lam,), shape=lam, got=m)
+                ok, hT = _call(out, 'roundtrip/get_hook_length', 'get_hook_length(*get_young_diagram_transpose(%s))' % (lam,), g.get_hook_length, *t)
+                if ok and not (isinstance(hT, (int, np.integer)) and int(hT) == want):
+                    out.violation('roundtrip/get_hook_length/conjugate_shape_has_another_count', 'get_hook_length of the conjugate of %s = %r, f(lam) = f(lam^T) = %d' % (lam, hT, want), shape=lam, got=repr(hT), expected=want)
+                out.count('roundtrips')
             out.trace()
         out.sample = {'kind': 'hook', 'N': N, 'shapes': len(ref_partitions(N))}
 
@@ -799,6 +967,39 @@ def run_case(case, out, env):
                         out.count('rejected_by_precondition')
                     except Exception as e:
                         out.count('non_partition_other_exception[%s]' % type(e).__name__)
+                    # with check=True (the default) every function that takes a diagram must reject it rather than return a
+                    # count / mask / list; tuple and int64-array forms, default and explicit flag, and once more after the
+                    # unchecked call of the same composition (check is part of the lru_cache key of get_hook_length)
+                    arr = np.array(comp, dtype=np.int64)
+                    checked = [('get_hook_length', lambda: g.get_hook_length(*comp)), ('get_hook_length', lambda: g.get_hook_length(*comp, check=True)),
+                               ('get_all_young_tableaux', lambda: g.get_all_young_tableaux(comp)), ('get_all_young_tableaux', lambda: g.get_all_young_tableaux(arr.copy(), check=True)),
+                               ('get_young_diagram_mask', lambda: g.get_young_diagram_mask(comp)), ('get_young_diagram_mask', lambda: g.get_young_diagram_mask(arr.copy(), check=True)),
+                               ('get_young_diagram_transpose', lambda: g.get_young_diagram_transpose(comp)), ('get_young_diagram_transpose', lambda: g.get_young_diagram_transpose(arr.copy(), check=True))]
+                    unchecked = [lambda: g.get_hook_length(*comp, check=False), lambda: g.get_young_diagram_mask(comp, check=False),
+                                 lambda: g.get_young_diagram_transpose(comp, check=False)]
+                    for phase in ('cold', 'after_unchecked_call'):
+                        for fname, call in checked:
+                            out.trans()
+                            try:
+                                res = call()
+                            except AssertionError:
+                                out.count('invalid_diagram_rejected')
+                                continue
+                            except Exception as e:  # not a clean rejection, but no result either
+                                out.count('invalid_diagram_other_exception[%s]' % type(e).__name__)
+                                continue
+                            if 'invalid_diagram_accepted' in PENDING:
+                                out.count('pending/invalid_diagram_accepted')
+                                continue
+                            out.violation('reject/%s/invalid_diagram_accepted' % fname, '%s accepts %s (not a Young diagram: zero part or increasing rows) with check=True and returns %s (%s)' % (fname, comp, repr(res)[:80], phase),
+                                          composition=comp, phase=phase, got=repr(res)[:300])
+                        if phase == 'cold':
+                            for call in unchecked:   # outside the admissible domain: anything may happen, nothing is compared
+                                try:
+                                    call()
+                                    out.count('invalid_diagram_unchecked_call_returns')
+                                except Exception:
+                                    out.count('invalid_diagram_unchecked_call_raises')
         out.outcome(('reject', dict(out.counters)), nontrivial=False)
         out.sample = {'kind': 'reject', 'N_max': case['N_max']}
     else:
